@@ -1268,6 +1268,13 @@ def check(pid, tier, seed):
             with R.Lock():
                 ok_tr, _ = R.lake_build(["UnicLocale.SrcTie.Transfer"])
             source_tie["transfer_theorems"] = "UL.SrcTie.Transfer.* built" if ok_tr else "UL.SrcTie.Transfer does not build"
+        if pid in ("C01", "C02", "C03", "C04", "C05", "C09", "C13") and source_tie["proved"] == source_tie["of"]:
+            # ... and about the source-derived parsers (loops, mutation, the subtag iterator): SrcTie/TransferParse.lean
+            with R.Lock():
+                ok_tr, _ = R.lake_build(["UnicLocale.SrcTie.TransferParse"])
+            source_tie["transfer_theorems"] = ("UL.SrcTie.TransferParse.* built (the property's central theorems hold of the parsers as the "
+                                               "source text defines them, incl. termination of the source's loops)"
+                                               if ok_tr else "UL.SrcTie.TransferParse does not build")
 
     # ---- correspondence + oracle
     known = [k for k in R.load_known() if k.get("property") == pid and k.get("status") == "known"]
